@@ -333,6 +333,8 @@ def _check_signature(fnrec):
     fake.hdr_end = toks[c].end
     fake.end = toks[c].end
     ov_names, _ = fn_params(sigtext[m.start():], fake)
+    # by-value parameters the real signature declares `mut`: make the overlay binding mutable too
+    fnrec["mut_params"] = re.findall(r"\bmut\s+(\w+)\s*:", fnrec["real_sig"])
     real = [p for p in fnrec["real_params"] if p not in fnrec["drop"]]
     ov = [p for p in ov_names if p not in fnrec["add"]]
     fnrec["overlay_params"] = ov_names
@@ -345,6 +347,16 @@ def _check_signature(fnrec):
 
 def _emit_body(unit, fnrec, dirs):
     _check_signature(fnrec)
+    for nm in fnrec.get("mut_params", []):
+        if nm == "self":
+            continue
+        for idx in range(fnrec["out_first"] - 1, len(unit.out_lines)):
+            ln = unit.out_lines[idx]
+            if re.search(r"\bfn\s+%s\b" % re.escape(fnrec["name"]), ln) or idx > fnrec["out_first"] - 1:
+                new = re.sub(r"(?<![\w.])(?<!mut )%s\s*:" % re.escape(nm), "mut %s:" % nm, ln, count=1)
+                if new != ln and "fn " in ln:
+                    unit.out_lines[idx] = new
+                    break
     it, src = fnrec["_item"], fnrec["_src"]
     body = src[it.body_open:it.body_close + 1]   # includes braces
     orig = body
